@@ -22,10 +22,10 @@ def overlay(tier):
 
 OPS = {
     "new": ("Memory::{new, default}", "empty, reads 0 everywhere (any offset)", ["C09"], False),
-    "read": ("Memory::read", "returns view(o) for every o in +-2^62; buffer/size/offset unchanged (reads never allocate)", ["C09", "C06"], False),
+    "read": ("Memory::read", "returns view(o) for every o in +-2^62; buffer/size/offset unchanged (reads never allocate)", ["C09", "C06", "C04"], False),
     "check": ("Memory::check", "check(o) <=> 0 <= offset+o < size; nothing changes", ["C09", "C06"], False),
-    "mov": ("Memory::mov", "view'(i) == view(i+d) for every d in +-2^62; never allocates", ["C09", "C06"], False),
-    "write": ("Memory::{write, write_out_of_bounds, make_accessible}", "view' == view[o := x] at a fresh symbolic index; wf'; target in buffer afterwards; all three growth placements covered", ["C09", "C06"], True),
+    "mov": ("Memory::mov", "view'(i) == view(i+d) for every d in +-2^62; never allocates", ["C09", "C06", "C04"], False),
+    "write": ("Memory::{write, write_out_of_bounds, make_accessible}", "view' == view[o := x] at a fresh symbolic index; wf'; target in buffer afterwards; all three growth placements covered", ["C09", "C06", "C04"], True),
     "write_oob": ("Memory::write_out_of_bounds", "view' == view[o := x]; wf'", ["C09", "C06"], True),
     "make_accessible": ("Memory::make_accessible", "view' == view (contents and logical pointer preserved); wf'; every q in [s,e) accessible afterwards; no reallocation when already accessible; never shrinks; growth below / above / both covered", ["C09", "C06"], True),
     "ptr_api": ("Memory::{current_ptr, check_ptr, set_current_ptr}", "check_ptr(current_ptr()+k) <=> check(k); set_current_ptr(current_ptr()+k) has the effect of mov(k) -- for pointers inside the block or one past its end (out-of-object pointers: not decided, Kani pointer-model artefact)", ["C09", "C06"], False),
@@ -57,10 +57,10 @@ def harnesses(tier, seed):
                        "timeout": t})
     hs.append({"name": MOD + "u2_context_input", "function": "Context::input",
                "clause": "None <=> source absent or Err; Some(0) at end of input; Some(b) on a byte; exactly one 1-byte read; memory and budget untouched",
-               "properties": ["C08"], "bounded_by": None, "complete_over": "all reader outcomes, all bytes (loop-free)", "timeout": t})
+               "properties": ["C08", "C04"], "bounded_by": None, "complete_over": "all reader outcomes, all bytes (loop-free)", "timeout": t})
     hs.append({"name": MOD + "u2_context_output", "function": "Context::output",
                "clause": "None <=> sink returns Ok(0) or Err; Some(()) when written or no sink; exactly one write of [value]",
-               "properties": ["C08"], "bounded_by": None, "complete_over": "all writer outcomes, all bytes (loop-free)", "timeout": t})
+               "properties": ["C08", "C04"], "bounded_by": None, "complete_over": "all writer outcomes, all bytes (loop-free)", "timeout": t})
     hs.append({"name": MOD + "u2_context_new", "function": "Context::{new, without_io}",
                "clause": "empty memory, zero budget, no I/O objects", "properties": ["C08", "C09"], "bounded_by": None,
                "complete_over": "-", "timeout": t})
